@@ -1890,7 +1890,9 @@ def c15(run):
     run.assumptions = ["String()'s %v lists are only unambiguous for at most one fact, rule and check per block: larger blocks are inspected through Code() only"]
     driver = core.build_driver(run.work)
     cases = [dict(c, **{"print": True}) for c in grammar_cases(run, with_err=False)
-             if c["kind"] in ("expr", "block", "rule", "check", "fact") and '"read"]' not in " ".join(c["toks"])]
+             if c["kind"] in ("expr", "block", "rule", "check", "fact") and '"read"]' not in " ".join(c["toks"])
+             # the property's printable domain: strings without quote, backslash or newline
+             and not any(t.startswith('"') and ("\\" in t or "\n" in t) for t in c["toks"])]
     if run.tier == "quick":
         cases = [c for i, c in enumerate(cases) if c["kind"] != "expr" or i % 3 == run.seed % 3]
     gram_stage(run, driver, cases, "print round trip")
